@@ -45,8 +45,7 @@ Definition agree (c : c14case) : bool :=
   | _, _ => false
   end.
 
-(* an exact tie of a measure between two features, or an association exactly equal to
-   thresh_corr: the implementation may order / decide either way *)
+(* helpers for exact ties *)
 Definition col_vals (fs : list feat) (j : nat) : list Z :=
   flat_map (fun f => match nth_error (f_raw f) j with
                      | Some r => if r_err r || r_nan r then [] else [r_val r]
@@ -58,10 +57,16 @@ Definition spec_vals (fs : list feat) (j : nat) : list Z :=
 Definition boundary (f : filt) (ids : list nat) : bool :=
   existsb (fun i => existsb (fun j => negb (Nat.eqb i j) && (fst (assoc_at f i j) =? fl_thresh f)) ids) ids.
 
+(* exact tie of a measure between two features: any order is accepted.  (An association exactly
+   equal to thresh_corr is NOT a tie here: the float-level oracle of the matrix entry tells the
+   model what the comparison returned.) *)
 Definition has_ties (t : tin) : bool :=
   let js := seq 0 (List.length (t_ms t)) in
-  existsb (fun j => negb (nodupz (col_vals (t_feats t) j)) || negb (nodupz (spec_vals (t_feats t) j))) js
-  || existsb (fun f => boundary f (map f_id (t_feats t))) (t_filters t).
+  existsb (fun j => negb (nodupz (col_vals (t_feats t) j)) || negb (nodupz (spec_vals (t_feats t) j))) js.
+
+(* for metamorphic pairs the rounding noise of the two runs may differ at such a boundary *)
+Definition has_boundary (t : tin) : bool :=
+  existsb (fun f => boundary f (map f_id (t_feats t))) (t_filters t).
 
 (* ---- the property on the implementation's output --------------------------------------------- *)
 Definition feat_of (t : tin) (i : nat) : option feat := find (fun f => Nat.eqb (f_id f) i) (t_feats t).
